@@ -142,6 +142,22 @@ def _inlined(cn, stmt, events_of, unroll, drop, known, depth):
     return out
 
 
+def _helper_call(cn, node, known):
+    """The same-class member function (with a body) that `node` calls, when the reference summary does not know it."""
+    if node is None or node.get("k") != "CXXMemberCallExpr":
+        return None
+    c = node.get("callee") or {}
+    if c.get("n") in known or c.get("f") != "ctpg" or c.get("parent") != cn.fn.o.get("parent"):
+        return None
+    obj = A.call_object(node)
+    if obj is not None and cn.c(obj) not in ("", "this"):
+        return None
+    g = cn.fn.facts.by_id.get(c.get("id"))
+    if g is None or g.body is None or g is cn.fn:
+        return None
+    return g
+
+
 def _versionable(cn, vid):
     """Is the variable numbered along the path? Reassigned locals / parameters always; with a canonical form that does
     not inline temporaries (noinline) every local that is not a reference alias (its first and only value is its
@@ -387,6 +403,21 @@ def event_conditions(cn, region, events_of=default_events, unroll=0, drop=lambda
                     for extra, arm in _ternary_arms(cn, sv):
                         record(("return", st.r(cn.c(arm))), e[1], alts, st.alts(extra))
                     evs = events_of(cn, v)
+                elif known is not None and _helper_call(cn, sv, known) is not None and _depth < 2:
+                    # `return helper(args)` for a same-class helper the reference does not know: the helper's own
+                    # returns (and events), with its parameters replaced by the arguments
+                    g = _helper_call(cn, sv, known)
+                    from .canon import Canon as _Canon
+                    hargs = [st.r(cn.c(a)) for a in A.call_args(sv)]
+                    sub, _ = event_conditions(_Canon(g, uniform=cn.uniform, noinline=cn.noinline), g.body,
+                                              events_of=events_of, unroll=unroll, drop=drop, known=known,
+                                              _depth=_depth + 1, versioned=versioned, cond_events=cond_events)
+                    for (k2, t2), d2 in sub.items():
+                        if k2 in ("break", "continue"):
+                            continue
+                        extra = [[(_subst(a_, hargs), p_) for a_, p_ in conj2] for conj2 in d2]
+                        record((k2, _subst(t2, hargs)), e[1], alts, extra)
+                    evs = []
                 elif cond_events and is_bool:
                     # `return b` for a bool expression is `if (b) return true; return false;`
                     for val in (True, False):
